@@ -4,6 +4,7 @@ import LanceModel.C43.ExcludeLemmas
 import LanceModel.C43.SetIdLemmas
 import LanceModel.C43.MergeLemmas
 import LanceModel.C43.InterLeftLemmas
+import LanceModel.C43.ExcludePathsLemmas
 /-
 C43 property theorems.  Statement (properties.jsonl): schema projection by names or ids, exclusion, intersection and
 merging, and the union/subtract/intersect operations on projections, behave as the corresponding set operations on field
@@ -279,6 +280,37 @@ private def exB : Schema :=
 example : nonnegL exA = true := by rfl
 example : (match Schema.inter exA false exB with | .ok r => idsL r | .error _ => []) = [5, 1, 2, 4] := by rfl
 example : (match Schema.inter exB false exA with | .ok r => idsL r | .error _ => []) = [17, 9, 8, 0] := by rfl
+
+/-- the set half of the intersection law for two ARBITRARY schemas: if same-named fields have the same kind all the way
+    down (`compat`; otherwise the real code reports a type error or silently drops the child) and sibling names are
+    unique, the name paths of `intersection(a, b)` are exactly the name paths present in both `a` and `b`. Together
+    with `intersection_keeps_left_ids` (each kept field is `a`'s field with `a`'s id and attributes) this is the full
+    set-operation statement. -/
+theorem intersection_paths (a b r : Schema) (ig : Bool)
+    (hnda : nodupB (a.map Field.name) = true) (hub : uniqL b = true)
+    (hc : ∀ o ∈ b, ∀ f, findByName o.name a = some f → f.compat o = true)
+    (h : Schema.inter a ig b = .ok r) :
+    ∀ p, p ∈ namePathsL r ↔ p ∈ namePathsL a ∧ p ∈ namePathsL b :=
+  Schema.inter_paths a ig hnda b r hc hub h
+
+example : nodupB (exA.map Field.name) = true ∧ uniqL exB = true := by decide
+example : (match Schema.inter exA false exB with | .ok r => namePathsL r | .error _ => [])
+    = [[['b']], [['a']], [['a'], ['x']], [['a'], ['y']]] := by rfl
+
+/-- exclusion for two ARBITRARY schemas (no sub-schema relation, ids unrelated): for type-compatible operands with
+    unique sibling names on the right, the result is a pruned copy of `a` (ids, attributes, order of `a` kept) whose
+    primitive fields are exactly those of `a` whose name path is not a primitive field of `b`. -/
+theorem exclude_paths (a b r : Schema) (hc : compatL b a = true)
+    (hnd : nodupB (b.map Field.name) = true) (hu : uniqL b = true) (h : Schema.exclude a b = .ok r) :
+    SubL r a ∧ leafPathsL r = (leafPathsL a).filter (fun p => !(leafPathsL b).contains p) := by
+  refine ⟨Schema.exclude_sub a b r h, ?_⟩
+  rw [Schema.exclude_eq_excludeL] at h
+  exact excludeL_paths a b r hc hnd hu h
+
+private def exC : Schema := [.mk ['a'] 40 .struct false 1 [.mk ['y'] 41 (.leaf 0) true 0 []], .mk ['z'] 42 (.leaf 0) true 0 []]
+example : compatL exC exA = true ∧ nodupB (exC.map Field.name) = true ∧ uniqL exC = true := by decide
+example : (match Schema.exclude exA exC with | .ok r => (idsL r, leafPathsL r) | .error _ => ([], []))
+    = ([1, 2, 5], [[['a'], ['x']], [['b']]]) := by rfl
 
 /-! ## merge -/
 
